@@ -80,7 +80,8 @@ def _run_job(args):
             else None
         solver = Solver()
         ctx = SymCtx(solver=solver, seed=seed, deadline=deadline,
-                     max_paths=cfg.get('max_paths'), crosscheck=cross)
+                     max_paths=cfg.get('max_paths'), crosscheck=cross,
+                     prop=H.PROPERTY)
         prof = Profiler()
         try:
             ctx.explore(H.body, cfg, n_samples=cfg.get('samples', 2),
@@ -94,6 +95,7 @@ def _run_job(args):
             validate=ctx.validate, exhaustive=ctx.exhaustive,
             queries=solver.queries, solver_s=solver.solver_s,
             functions=sorted(prof.names), wall_s=time.time() - t0,
+            reports=ctx.reports,
             cross=None, error=None)
         if cross is not None and cross.items:
             res['cross'] = _crosscheck(cross)
@@ -176,7 +178,10 @@ def run_check(H, tier, seed, workers=None):
     exhaustive = bool(ok) and not errors
     cross = dict(queries=0, solvers={})
     job_rows = []
+    reports = {}
     for r in ok:
+        for k, v in r.get('reports', {}).items():
+            reports.setdefault(k, []).extend(v)
         for k, v in r['stats'].items():
             stats[k] = stats.get(k, 0) + v
         for k, v in r['claim_counts'].items():
@@ -325,6 +330,7 @@ def run_check(H, tier, seed, workers=None):
                                  paths=r['paths_with_this_signature'])
                             for k, r in known_hits],
             harness_problems=harness_problems,
+            reports=reports,
             explanation=(
                 'states = decision-tree nodes created (solver-decided branch '
                 'points plus leaves); transitions = feasible branch edges; '
